@@ -25,6 +25,12 @@ NS_NAMES = [['A'], ['B'], ['A', 'B'], ['AB']]    # 'AB': same text as A+B withou
 
 
 def leaf_node(kind, name):
+    if '.' in name:
+        # a declaration with a multi-identifier name: everything that merely REFERS to a name uses its last identifier
+        node = leaf_node(kind, name.rsplit('.', 1)[-1])
+        if kind in ('component', 'system', 'foreign', 'interface', 'enum', 'subint', 'extern'):
+            node[1] = name
+        return node
     if kind == 'component':
         return ['component', name, [['p', [name], 'provides', False], ['r', ['A', name], 'requires', True]]]
     if kind == 'system':
@@ -64,7 +70,13 @@ def shape_to_doc(forest, own_names):
     def conv(tree):
         label, kids = tree
         if kids is None:
-            if own_names == 'odd':
+            if own_names == 'dotted':
+                # REPRESENTATION: declarations written with a multi-identifier name (P.N0 = N0 inside namespace P)
+                k = next(counter)
+                name = ['P.N%d', 'N%d', 'P.Q.N%d', 'A.N%d'][k % 4] % k
+                if LEAF_KINDS[label] in ('import', 'filename', 'unknown', 'junk'):
+                    name = 'N%d' % k
+            elif own_names == 'odd':
                 name = ODD_NAMES[next(counter) % len(ODD_NAMES)]
             else:
                 name = f'N{next(counter)}' if own_names else 'X'
@@ -77,6 +89,8 @@ def shape_to_doc(forest, own_names):
 def parse(doc_json_text, verbose=False):
     from dznpy.json_ast import DznJsonAst  # pylint: disable=import-outside-toplevel
     with contextlib.redirect_stdout(io.StringIO()):
+        if verbose == 'positional':
+            return DznJsonAst(doc_json_text, True).process()       # REPRESENTATION: the flag given positionally
         return DznJsonAst(doc_json_text, verbose=verbose).process()
 
 
@@ -85,7 +99,7 @@ def judge(case):
     out = []
     try:
         text = json.dumps(D.to_json(doc, case.get('comment'), case.get('form')))
-        fct = parse(text, bool(case.get('verbose')))
+        fct = parse(text, case.get('verbose') or False)
         want, got = D.expected(doc), D.unparse(fct)
         cont, what = D.first_difference(want, got)
         if cont:
@@ -184,7 +198,7 @@ def work(job):
             if k % nslots != idx:
                 continue
             nnodes = sum(1 for _ in _shape_nodes(forest))
-            for own in (False, True) + (('odd',) if nnodes <= 3 else ()):
+            for own in (False, True) + (('odd', 'dotted') if nnodes <= 3 else ()):
                 case = {'doc': shape_to_doc(forest, own)}
                 _one(case, part)
                 if nnodes <= 3 and own is True:
@@ -203,6 +217,7 @@ def work(job):
                     case['comment'] = 'c'
                 _one(case, part)
                 _one(dict(case, verbose=True), part)
+                _one(dict(case, verbose='positional'), part)
                 # REPRESENTATION: the same document with the keys of every object reversed / with extra keys
                 for form in ('reversed', 'extra', 'reversed+extra'):
                     _one(dict(case, form=form), part)
